@@ -92,8 +92,9 @@ def create (s : St) (u k i a b : Nat) (soft : Bool) (execLamports : Nat) (receiv
     | some (l, sh, m) =>
       if execLamports < minExecLamports k then none else
       if k = 5 ∧ s.posOpen u = false then none else     -- a decrease order needs the position account
+      -- (a position order of size 0 never checks the acceptable price: its `soft` flag has no effect)
       let s1 := setAct (setUser s u ⟨usr.long - l, usr.short - sh, usr.mt - m⟩) u k i
-        (some ⟨0, l, sh, m, s.now, execLamports, soft, receiver, if k = 4 then 100 * b else if k = 5 then b else 0⟩)
+        (some ⟨0, l, sh, m, s.now, execLamports, soft && !((k = 4 || k = 5) && b = 0), receiver, if k = 4 then 100 * b else if k = 5 then b else 0⟩)
       -- the client (re-)prepares the position account before an increase order
       some (if k = 4 then { s1 with posOpen := fun v => if v = u then true else s.posOpen v } else s1)
 
